@@ -30,12 +30,24 @@ class World(object):
         self.other = toy.t_mul(11, G, p, a)         # thread-local operand
         probe = self.PJ(self.cf, self.base[0], self.base[1], 1, n, generator=True)
         self.fields = {}
+        self.defaults = {}
+        # instance attributes, and class-level defaults that instances may shadow later (introspection, not names)
+        cands = {}
+        for klass in reversed(type(probe).__mro__):
+            for k, v in vars(klass).items():
+                if isinstance(v, (tuple, list)) and not k.startswith("__"):
+                    cands[k] = v
+                    self.defaults[k] = v
         for k, v in vars(probe).items():
+            cands[k] = v
+            self.defaults.pop(k, None)
+        for k, v in cands.items():
             if isinstance(v, tuple):
                 self.fields[k] = "coords"
             elif isinstance(v, list):
                 self.fields[k] = "table"
         world = self
+        MISSING = object()
 
         class Attr(object):
             def __init__(self, name, tag):
@@ -45,15 +57,18 @@ class World(object):
                 if obj is None:
                     return self
                 ex = world.cur
+                dflt = world.defaults.get(self.name, MISSING)
                 if ex is not None and id(obj) in ex.shared:
                     ex.s.announce(("Rd", self.tag))
-                    v = obj.__dict__[self.name]
+                    v = obj.__dict__.get(self.name, dflt)
+                    if v is MISSING:
+                        raise AttributeError(self.name)
                     ex.on_read(self.tag, v, obj)
                     return v
-                try:
-                    return obj.__dict__[self.name]
-                except KeyError:
+                v = obj.__dict__.get(self.name, dflt)
+                if v is MISSING:
                     raise AttributeError(self.name)
+                return v
 
             def __set__(self, obj, value):
                 ex = world.cur
@@ -82,7 +97,8 @@ class World(object):
         # the complete table of the shared point (sequential, uncontrolled)
         g = self.PJ(self.cf, self.base[0], self.base[1], 1, n, generator=True)
         g * 2
-        self.full_table = [tuple(e) for e in g.__dict__[[k for k, t in self.fields.items() if t == "table"][0]]]
+        tname = [k for k, t in self.fields.items() if t == "table"][0]
+        self.full_table = [tuple(e) for e in g.__dict__.get(tname, self.defaults.get(tname, []))]
 
     def affine_of(self, c):
         X, Y, Z = c
@@ -159,8 +175,15 @@ class Execution(object):
             # ... restricted to the functions that touch the object's mutable fields at all (the field arithmetic
             # helpers _add/_double/... only use their arguments and are thread-local computation)
             co = frame.f_code
-            if co.co_filename.endswith("ellipticcurve.py") and any(n in self.w.fields for n in co.co_names) \
-                    and frame.f_locals.get("self") is self.P:
+            if not co.co_filename.endswith("ellipticcurve.py"):
+                return None
+            if frame.f_locals.get("self") is self.P and (any(n in self.w.fields for n in co.co_names)
+                                                          or co.co_name in ("__getstate__", "__setstate__", "__reduce__", "__reduce_ex__")):
+                return local
+            # comprehensions / generator expressions running on behalf of such a method (they iterate the object's state)
+            back = frame.f_back
+            if co.co_name.startswith("<") and back is not None and back.f_code.co_filename.endswith("ellipticcurve.py") \
+                    and back.f_locals.get("self") is self.P:
                 return local
             return None
 
@@ -428,7 +451,8 @@ class KeyWorld(object):
         def full_table(pt):
             g = w.PJ(w.cf, pt[0], pt[1], 1, n, generator=True)
             g * 2
-            return [tuple(e) for e in g.__dict__[[k for k, t in w.fields.items() if t == "table"][0]]]
+            tn_ = [k for k, t in w.fields.items() if t == "table"][0]
+            return [tuple(e) for e in g.__dict__.get(tn_, w.defaults.get(tn_, []))]
         self.tables = {"G": full_table(G), "Q": full_table(self.Q)}
 
 
@@ -551,7 +575,7 @@ class KeyExecution(object):
         tname = [k for k, t in self.w.fields.items() if t == "table"][0]
         cname = [k for k, t in self.w.fields.items() if t == "coords"][0]
         for o in self.keep:
-            regs.append((self.objs[id(o)][0], repr(o.__dict__[cname]), len(o.__dict__[tname])))
+            regs.append((self.objs[id(o)][0], repr(o.__dict__[cname]), len(o.__dict__.get(tname, ()))))
         ref = self.index_of(self.vk.pubkey.__dict__["point"])
         return (tuple(regs), ref, tuple((t, tuple(self.reads.get(t, ())), repr(self.s.ts[t].pending)[:40]) for t in sorted(self.s.ts)))
 
